@@ -278,15 +278,37 @@ for K in (BitVector, Unsigned, Signed):
             con.cases.append(c)
 
 
-# ---- a type that already HAS its parameters cannot be parametrised again ---------------------------------------------------
-# `BitVector[37][23]` would be created as a subclass of BitVector[37] and stored in the shared cache under the key of BitVector[23]:
-# from then on unrelated widths are subclasses of each other (the lattice depends on the order of first use).  Rejected.
-def _reparam_spec(sx, cls, size):
-    sx.reject(AssertionError)
+# ---- parametrising a type that already HAS its parameters -------------------------------------------------------------------
+# `BitVector[37][23]` must not be created as a subclass of BitVector[37] and stored in the shared cache under the key of
+# BitVector[23] (from then on unrelated widths would be subclasses of each other, depending on the order of first use).  It is the
+# regular member of the same family for the NEW parameters: BitVector[37][23] is BitVector[23], Unsigned[41][19] is Unsigned[19]
+# (std.reg relies on `Unsigned[w][w]`), Array[Bit, 7][Bit, 5] is Array[Bit, 5].  Nothing is derived from the parametrised class.
+def _reparam_spec(K):
+    def spec(sx, cls, size):
+        it = sx.it
+        w = size
+        sx.require(w > 0)
+
+        def holds(res):
+            created = [e[1] for e in it.ctx.events if e[0] == "type"]
+            if any(isinstance(t, SCls) and any(b is cls for b in getattr(t, "bases", ())) for t in created):
+                return False  # a class derived from the parametrised type
+            return isinstance(res, SCls) and it.base_kind(res) is K and sym.simp(sym.eq(res.params.get("width"), w)) is True and not created
+
+        return C.Pred(holds, "the family's canonical class for the new width; no class derived from the parametrised type")
+
+    return spec
+
+
+def _family_subscript(it, cls, key):
+    # induction hypothesis: subscripting the UNPARAMETRISED family root yields its canonical class (the cases above)
+    K = cls
+    w = key if not isinstance(key, slice) else key.start + 1
+    return SCls(K, width=w)
 
 
 for K in (BitVector, Unsigned, Signed):
-    c = Case(f"{K.__name__}-already-parametrised", [Const(K[5], f"cohdl.{K.__name__}[5]"), PyInt("n", None, None, 1, 9)], _reparam_spec)
+    c = Case(f"{K.__name__}-already-parametrised", [Const(K[5], f"cohdl.{K.__name__}[5]"), PyInt("n", None, None, -2, 9)], _reparam_spec(K))
     c.native = False
     c.interp_flags = {"abstract_type_creation": True}
 
@@ -309,6 +331,18 @@ def _array_spec(sx, cls, slice):
     return C.Pred(holds, "a new class derived from Array with element type and count")
 
 
+def _array_reparam_spec(sx, cls, slice):
+    def holds(res):
+        created = [e[1] for e in sx.it.ctx.events if e[0] == "type"]
+        if len(created) > 1 or any(any(b is cls for b in t.bases) for t in created):
+            return False  # nothing may be derived from Array[Bit, 7]
+        if isinstance(res, type):  # the real canonical class (the family root was subscripted natively)
+            return res._count_ == 5 and res._elemtype_ is Bit and cls not in res.__mro__
+        return isinstance(res, SCls) and (res.ns.get("_count_") == 5 if getattr(res, "ns", None) else res.params.get("count") == 5)
+
+    return C.Pred(holds, "Array[Bit, 5], not a class derived from Array[Bit, 7]")
+
+
 C.inline("cohdl._core._primitive_type:is_primitive_type")
 con_arr = contract("cohdl._core._array:_MetaArray.__getitem__", PROPS)
 c = Case("Array-miss", [Const(Array, "cohdl.Array"), Const((Bit, 3), "(Bit, 3)")], _array_spec)
@@ -316,7 +350,7 @@ c.native = False
 c.interp_flags = {"abstract_type_creation": True}
 c.setup = lambda it, ctx, args, env: install_cache(it, Array, False, lambda key: SCls(Array, elemtype=key[0], count=key[1]))
 con_arr.cases.append(c)
-c = Case("Array-already-parametrised", [Const(Array[Bit, 7], "cohdl.Array[Bit, 7]"), Const((Bit, 5), "(Bit, 5)")], _reparam_spec)
+c = Case("Array-already-parametrised", [Const(Array[Bit, 7], "cohdl.Array[Bit, 7]"), Const((Bit, 5), "(Bit, 5)")], _array_reparam_spec)
 c.native = False
 c.interp_flags = {"abstract_type_creation": True}
 c.setup = lambda it, ctx, args, env: install_cache(it, Array, False, lambda key: SCls(Array, elemtype=key[0], count=key[1]))
@@ -326,13 +360,14 @@ con_arr.cases.append(c)
 _REPARAM_SCRIPT = '''
 from cohdl import BitVector, Unsigned, Array, Bit
 out = []
-for what, f in (("BitVector[37][23]", lambda: BitVector[37][23]), ("Unsigned[41][19]", lambda: Unsigned[41][19]), ("Array[Bit, 7][Bit, 5]", lambda: Array[Bit, 7][Bit, 5])):
+for what, f, want in (("BitVector[37][23]", lambda: BitVector[37][23], lambda: BitVector[23]), ("Unsigned[41][19]", lambda: Unsigned[41][19], lambda: Unsigned[19]),
+                      ("Unsigned[4][4]", lambda: Unsigned[4][4], lambda: Unsigned[4]), ("Array[Bit, 7][Bit, 5]", lambda: Array[Bit, 7][Bit, 5], lambda: Array[Bit, 5])):
     try:
-        f()
-        out.append(what + " accepted")
+        if f() is not want():
+            out.append(what + " is another class")
     except AssertionError:
-        pass
-print("POISONED" if issubclass(BitVector[23], BitVector[37]) or issubclass(Array[Bit, 5], Array[Bit, 7]) else "CLEAN", out)
+        out.append(what + " rejected")
+print("POISONED" if issubclass(BitVector[23], BitVector[37]) or issubclass(Array[Bit, 5], Array[Bit, 7]) or out else "CLEAN", out)
 '''
 
 
